@@ -253,6 +253,62 @@ Theorem stream_data_round_trip :
 Proof. exact stream_data_roundtrip. Qed.
 Print Assumptions stream_data_round_trip.
 
+(* OpenStream with filters on a dictionary that declares a chain already (the caller has encoded
+   the data): whatever the shape of the declaration - a name with or without a parameter dictionary,
+   an array with or without a parameter array, null or missing entries -, the chain a reader finds in
+   the written dictionary is the filters of OpenStream followed by the declared filters, each with
+   its own parameters (the /Filter and /DecodeParms arrays are aligned index by index) ... *)
+Theorem declared_chain_read_back :
+  forall n g d f fs o, dict_get k_Filter d = Some o ->
+    filter_chain (dict_of (norm (ODict (stream_dict n g d (f :: fs))))) =
+    map (fun f => (fst f, norm_parms (snd f))) (f :: fs) ++
+    map (fun f => (fst f, norm_parms (snd f))) (old_chain (dict_del k_Length d)).
+Proof. exact filter_chain_declared. Qed.
+Print Assumptions declared_chain_read_back.
+
+(* ... for a well-formed declaration (/Filter a name or an array of names) the second part is the
+   chain a reader would find in the caller's own dictionary ... *)
+Theorem declared_chain_is_callers :
+  forall n g d f fs o, dict_get k_Filter d = Some o -> decl_wf (dict_del k_Length d) ->
+    filter_chain (dict_of (norm (ODict (stream_dict n g d (f :: fs))))) =
+    map (fun f => (fst f, norm_parms (snd f))) (f :: fs) ++ filter_chain (norm_parms (dict_del k_Length d)).
+Proof. exact filter_chain_declared_wf. Qed.
+Print Assumptions declared_chain_is_callers.
+
+(* ... and decoding the written data with the written chain is decoding, with the declared chain,
+   the bytes the caller handed to Write *)
+Theorem stream_data_declared_chain :
+  forall (fenc : bytes -> dict -> bytes -> bytes) (fdec : bytes -> dict -> bytes -> option bytes),
+    (forall name p x, fdec name (norm_parms p) (fenc name p x) = Some x) ->
+    forall (encB decB : N -> N -> bytes -> bytes) (c : cfg) (encd : bool) (rs : rstate) n g d f fs o data,
+      (forall n g s, decB n g (encB n g s) = s) ->
+      encd = encrypted c ->
+      dict_get k_Filter d = Some o -> has_crypt_first d = false ->
+      bytes_eqb (fst f) k_Crypt = false ->
+      existsb (N.eqb n) (rplain rs) = false ->
+      stream_data decB fdec encd rs n g (dict_of (norm (ODict (stream_dict n g d (f :: fs)))))
+                  (stream_raw encB fenc c n g d (f :: fs) data) =
+      decode_chain fdec (map (fun f => (fst f, norm_parms (snd f))) (old_chain (dict_del k_Length d))) data.
+Proof. exact stream_data_declared. Qed.
+Print Assumptions stream_data_declared_chain.
+
+(* the shape of /Filter and /DecodeParms in every stream dictionary the writer renders: a single name
+   with its parameter dictionary (absent if empty), or the array of names with /DecodeParms absent
+   (all parameters empty) or an array of exactly the same length whose entries are the parameter
+   dictionaries, null standing for an empty one *)
+Theorem stream_dict_filters_aligned :
+  forall n g d fs,
+    (dict_get k_Filter d = None -> dict_get k_DecodeParms d = None ->
+       chain_repr fs (stream_dict n g d fs)) /\
+    (forall f fs' o, fs = f :: fs' -> dict_get k_Filter d = Some o ->
+       chain_repr (fs ++ old_chain (dict_del k_Length d)) (stream_dict n g d fs)).
+Proof.
+  intros n g d fs. split.
+  - intros HF HD. exact (proj1 (stream_dict_repr_plain n g d fs HF HD)).
+  - intros f fs' o -> H. exact (proj1 (stream_dict_repr_declared n g d f fs' o H)).
+Qed.
+Print Assumptions stream_dict_filters_aligned.
+
 (* a value may be Put under two numbers: both read back equal *)
 Theorem same_value_two_numbers :
   forall (fmt : obj -> bytes) (fmt_sd : dict -> lenrep -> bytes) (parse : bytes -> option (obj * bytes))
